@@ -57,6 +57,12 @@ func (s *scanner) Scan(value bytes.Bytes) (*Number, error) {
 		return nil, err
 	}
 
+	if len(n.nat) == 0 {
+		// No significant digit is left: the value is zero, which has no sign
+		// (-0 equals 0).
+		n.neg = false
+	}
+
 	return &n, nil
 }
 
